@@ -158,7 +158,12 @@ def w_filter(case):
         # sort_times(o1): observations are re-ordered to obs[..., o1]; simulated
         # measurements are then expected in that order
         f1 = build_filter(blocks, y, composed)
-        f1.sort_times(o1)
+        # (the order is handed over as an index array that the caller re-uses for
+        # something else afterwards)
+        o_arr = np.array(o1, dtype=int)
+        f1.sort_times(o_arr)
+        o_arr[:] = o_arr[::-1].copy()
+        o_arr += 1
         g = f1.compute_log_likelihood(sim[..., o1].copy())
         ntr += 1
         if not tol.close(g, base):
@@ -383,8 +388,7 @@ def build(tier, seed):
                         double_sort=(mi == 0)))
         # compositions: every split of the time axis into consecutive blocks,
         # every assignment of kinds to blocks
-        ckinds = [('G', 2), ('GKDE', 2), ('LN', 2)] if tier == 'quick' else \
-            [('G', 2), ('GKDE', 2), ('LN', 2), ('LNKDE', 2), ('GM', 2)]
+        ckinds = [('G', 2), ('GKDE', 2), ('LN', 2), ('LNKDE', 2), ('GM', 2)]
         for cuts in itertools.product([0, 1], repeat=T - 1):
             sizes, cur = [], 1
             for c in cuts:
